@@ -42,7 +42,8 @@ TNext ==
       /\ e.fam
       /\ gi' = gi /\ node' = e.dst
       /\ CASE e.ev = "add" -> AddSubdomains(e.L)
-           [] e.ev = "addintf" -> AddInterface(e.i, e.a, e.b)
+           \* (the code of today stores the data dictionary before the co-dimension check raises; both variants conform)
+           [] e.ev = "addintf" -> \E atomic \in BOOLEAN : AddInterfaceV(e.i, e.a, e.b, atomic)
            [] e.ev = "remove" -> RemoveSubdomain(e.s)
            [] e.ev = "replace" -> ReplaceSubdomains(e.map)
            [] e.ev = "replaceintf" -> ReplaceInterface(e.i)
